@@ -19,6 +19,7 @@ L2: every message value created in open_flow / expand_flow / close_flow / claim 
 close_flow must depend on the flow's asset_history (funded amount including expansions), not only on flow_asset.amount.
 L4: in close_flow the FLOWS.remove and the refund lie on the same success paths and the refund goes to flow.flow_creator.
 L6: the creation-fee message goes to the factory's fee_collector_addr with amount create_flow_fee.amount.
+L8: positions are recorded only for LP actually received (shared with C11-K1/K2).
 L7: in claim the stored new claimed total (claimed + reward) is the quantity a dominating `> funded amount` test rejects.
 """
 ASSUMPTIONS = [
@@ -304,6 +305,16 @@ def check_fee_message(ctx, model):
 
 def run(ctx):
     model = ctx.model()
+    # L9: the v1.0.6 storage migration keeps every flow ledger (funded asset, claimed_amount, emitted_tokens, epochs)
+    from .common import check_migration_copy
+    check_migration_copy(ctx, model, "C12-L9", "incentive::migrations::migrate_to_v106", "pool_network::incentive::Flow", {"flow_label", "asset_history"})
+    # L8: LP positions share the contract's balance with the flows (an LP token can be the reward denom): a position is
+    # recorded only for LP actually received (C11-K1/K2's rules), else its withdrawal is paid out of the flows' funds
+    from .C11 import check_vfs, check_position_fn, OPEN as _OP, EXPAND as _EX
+    px = ctx.renamed({"C11-K2": "C12-L8", "C11-K1": "C12-L8"})
+    check_vfs(px, model)
+    check_position_fn(px, model, _OP)
+    check_position_fn(px, model, _EX)
     check_claim_bound(ctx, model)
     kinds = ["NativeToken", "Token"]
     cfgs = []
